@@ -70,7 +70,7 @@ package types
 
 //@ spec fn ibeHash(be Hash, claim Hash, gi Hash) Hash = keccak(catB(catB(catB(emptyB(), bytesOf(hb(be), 32)), bytesOf(hb(claim), 32)), bytesOf(hb(gi), 32)))
 //@ func (c *ImportedBridgeExit) Hash (c)
-//@   props C10
+//@   props C10 C19
 //@   requires c != nil && c.BridgeExit != nil && c.BridgeExit.TokenInfo != nil && c.BridgeExit.Amount != nil && c.ClaimData != nil && c.GlobalIndex != nil
 //@   requires 0 <= bigval(c.BridgeExit.Amount) && bigval(c.BridgeExit.Amount) < 115792089237316195423570985008687907853269984665640564039457584007913129639936
 //@   modifies nothing
